@@ -67,6 +67,15 @@ Theorem C20_eq_iff :
 Proof. exact td_eqb_eq. Qed.
 Print Assumptions C20_eq_iff.
 
+(** with an element type whose equality is not reflexive (f64 holding a NaN) "equal exactly
+    when dimensions and cells are equal" means: an array is equal to itself iff no cell holds
+    such a value - a pointer-equality shortcut in `==` would break it *)
+Theorem C20_equality_is_cellwise_even_for_self :
+  forall (nan : nat -> bool) (a : toodee N),
+  td_eqb_partial nan a a = true <-> (forall j, j < length (data a) -> nan j = false).
+Proof. exact td_eqb_partial_self. Qed.
+Print Assumptions C20_equality_is_cellwise_even_for_self.
+
 Example C20_example :
   @ctor_from_vec N 5 0 [] = Panic /\ @ctor_from_vec N 4294967296 4294967296 [] = Panic /\
   ctor_from_vec 2 3 (iota 6) = Ok (mkTD (iota 6) 3 2) /\
